@@ -1,6 +1,11 @@
 use crate::internal::{consts, DirEntry, MiniAllocator, ObjType, Timestamp};
 use std::fmt;
 use std::path::{Path, PathBuf};
+#[cfg(cfb_verif)]
+use crate::internal::sync::RwLock;
+#[cfg(cfb_verif)]
+use std::sync::Arc;
+#[cfg(not(cfb_verif))]
 use std::sync::{Arc, RwLock};
 use uuid::Uuid;
 use web_time::SystemTime;
